@@ -131,6 +131,7 @@ class Unit:
         self.prelude = prelude
         self.binary = None
         self.skipped = []  # registrations that do not compile on this tree
+        self.skip_errors = {}
 
     def tu_sources(self):
         out = []
@@ -188,6 +189,20 @@ def build_units(units):
     log('[build] %d units in %.1fs' % (len(units), time.time() - t0))
 
 
+def first_error_line(out):
+    for l in out.splitlines():
+        if 'error' in l:
+            return l.strip()[:400]
+    return out.strip()[:400]
+
+
+def load_allow(prop):
+    p = os.path.join(ROOT, 'uncompilable_allow.json')
+    if os.path.exists(p):
+        return set(json.load(open(p)).get(prop, []))
+    return set()
+
+
 def bisect_tu(u, i, err):
     regs = u.regs[i * u.chunk:(i + 1) * u.chunk]
     log('[build] %s TU %d failed to compile; testing %d registrations one by one' % (u.name, i, len(regs)))
@@ -210,6 +225,7 @@ def bisect_tu(u, i, err):
             good.append(r)
         else:
             u.skipped.append(r)
+            u.skip_errors[r] = first_error_line(out)
             first_err = first_err or out
     if not good:
         if len(u.skipped) == len(u.regs):
@@ -418,6 +434,20 @@ def check(prop, tier, seed):
             log('[flaky] %s %s reproduced %d/3 times; not reported' % (site, f['class'], confirmed))
             ev.setdefault('flaky', []).append(dict(site=site, cls=f['class'], reproduced=confirmed))
 
+    # 4b. instantiations that compiled on the reference tree but no longer do (DESIGN 2.1, 7)
+    allow = load_allow(prop)
+    for u in units:
+        for r in u.skipped:
+            key = u.cfg.split('+')[0].split('-')[0] + ':' + r
+            if key in allow or r in allow:
+                continue
+            rep = dict(property=prop, site=r, cfg=u.cfg, unit=u.name, **{'class': 'instantiation-does-not-compile'},
+                       msg=u.skip_errors.get(r, ''), desc='registration ' + r, seed=seed, tier=tier, registration=r, header=u.header)
+            path = os.path.join(ROOT, 'evidence', 'replay', '%s-%s.json' % (prop, sha(json.dumps(rep, sort_keys=True))[:12]))
+            with open(path, 'w') as fh:
+                json.dump(rep, fh, indent=1)
+            violations.append((r, 'instantiation-does-not-compile', path, u.skip_errors.get(r, '')))
+
     # 5. known findings: witness must still fail
     kf_lines = []
     for k in known:
@@ -498,6 +528,15 @@ def main():
         prop, path = a[1], a[2]
         j = json.load(open(path))
         mod = importlib.import_module('vgen.' + prop)
+        if 'registration' in j:
+            src = '#include "%s"\nstatic void vf_reg()\n{\n    %s;\n}\nVF_REGISTER(vf_reg)\n' % (j['header'], j['registration'])
+            fn = os.path.join(BUILD, 'replay-reg.cpp')
+            os.makedirs(BUILD, exist_ok=True)
+            open(fn, 'w').write(src)
+            rr = run(cfg_cmd(j['cfg']) + ['-fsyntax-only', fn])
+            print(rr.stdout[-3000:])
+            print('REPLAY %s' % ('FAIL (does not compile)' if rr.returncode else 'PASS (compiles)'))
+            return 1 if rr.returncode else 0
         if hasattr(mod, 'replay') and ('words' not in j and 'enum_idx' not in j):
             return mod.replay(j)
         plan = mod.plan(j.get('tier', 'thorough'), seed)
@@ -514,6 +553,22 @@ def main():
             return 1 if rc in (1, 4) else 0
         print('site %s not found in any unit' % want)
         return 2
+    if a[0] == 'allow':  # record the registrations that do not compile on the (unchanged) tree
+        prop = a[1]
+        mod = importlib.import_module('vgen.' + prop)
+        keys = set()
+        for tier in ('quick', 'thorough'):
+            plan = mod.plan(tier, seed)
+            build_units(plan['units'])
+            for u in plan['units']:
+                for r in u.skipped:
+                    keys.add(u.cfg.split('+')[0].split('-')[0] + ':' + r)
+        p = os.path.join(ROOT, 'uncompilable_allow.json')
+        j = json.load(open(p)) if os.path.exists(p) else {}
+        j[prop] = sorted(keys)
+        json.dump(j, open(p, 'w'), indent=1, sort_keys=True)
+        print('%s: %d registrations do not compile on this tree (recorded)' % (prop, len(keys)))
+        return 0
     if a[0] == 'list':
         mod = importlib.import_module('vgen.' + a[1])
         plan = mod.plan(a[2] if len(a) > 2 else 'quick', seed)
